@@ -261,7 +261,7 @@ Definition spec_raw (s : st) (o : op) : st * out :=
         match c with
         | None => (s, OErr ENotExist)
         | Some c => if is_dir (heap s) c && negb (match n_children (get (heap s) c) with [] => true | _ => false end)
-                    then (s, OErr EOther)                                      (* ENOTEMPTY *)
+                    then (s, OErr EExist)              (* ENOTEMPTY, which Go files under fs.ErrExist *)
                     else (seth s (del_child (heap s) pi nm), OOk)
         end)
   | Chmod p perm => s_with_node s p (fun i => (seth s (upd (heap s) i (set_perm perm)), OOk))
